@@ -2048,3 +2048,653 @@ Proof.
     exists c, t. split; [exact Hc|exact E].
   - intros [c [t [Hc Hs]]]. exists c. split; [exact Hc|]. rewrite Hs. reflexivity.
 Qed.
+
+(* ====================================================================================== *)
+(* 5. the whole session: worker x pools                                                   *)
+(* ====================================================================================== *)
+
+
+Lemma map_id_shape (l : list use_rec) : l = map (fun r => r) l.
+Proof. symmetry. apply map_id. Qed.
+
+Lemma accept_path_pl s c r a s' : accept_path s c r a = Some s' -> pending s' = pending s /\ log s' = log s.
+Proof.
+  unfold accept_path. destruct (r && negb (is_accept a)); [discriminate|]. intros H. injection H as <-. split; reflexivity.
+Qed.
+Lemma ready_path_pl s c e r a s' : ready_path s c e r a = Some s' -> pending s' = pending s /\ log s' = log s.
+Proof.
+  unfold ready_path. destruct (cur s) as [k|]; [|apply accept_path_pl].
+  destruct (evks_differs e k); [|apply accept_path_pl]. intros H. injection H as <-. split; reflexivity.
+Qed.
+
+Definition plain_step (p p' : pool) (l : label) : Prop :=
+  log p' = log p /\ answered_by l = None /\
+  exists g, (forall r, same_shape r (g r)) /\ pending p' = map g (pending p).
+Definition answer_step (p p' : pool) (l : label) : Prop :=
+  exists u a r, answered_by l = Some (u, a) /\ pending p' = drop_use (pending p) u /\
+                log p' = log p ++ [(u, a)] /\ find_use (pending p) u = Some r.
+
+Lemma plain_id p p' l : log p' = log p -> answered_by l = None -> pending p' = pending p -> plain_step p p' l.
+Proof.
+  intros H1 H2 H3. split; [exact H1|]. split; [exact H2|]. exists (fun r => r). split; [intros; apply same_shape_refl|].
+  rewrite H3. apply map_id_shape.
+Qed.
+
+Lemma step_pending_log p l p' :
+  step p l = Some p' -> is_use l = false -> plain_step p p' l \/ answer_step p p' l.
+Proof.
+  intros H Hu. destruct l; cbn [step is_use] in H, Hu; try discriminate.
+  - left. injection H as <-. apply plain_id; reflexivity.
+  - left. destruct (ph p c); try discriminate. destruct ok.
+    + destruct (ready_path_pl _ _ _ _ _ _ H) as [H1 H2]. apply plain_id; [exact H2|reflexivity|exact H1].
+    + injection H as <-. apply plain_id; reflexivity.
+  - left. destruct (ph p c); try discriminate. destruct r as [rep|].
+    + destruct (alive p c); [|discriminate].
+      set (s1 := match rep with RSetKeyspace n => set_acked p (upd (acked p) c (Some n)) | _ => p end) in *.
+      assert (P1 : pending s1 = pending p) by (subst s1; destruct rep; reflexivity).
+      assert (L1 : log s1 = log p) by (subst s1; destruct rep; reflexivity).
+      destruct (verify_result k rep).
+      * destruct (ready_path_pl _ _ _ _ _ _ H) as [H1 H2]. apply plain_id; [congruence|reflexivity|congruence].
+      * injection H as <-. apply plain_id; [exact L1|reflexivity|exact P1].
+      * injection H as <-. apply plain_id; [exact L1|reflexivity|exact P1].
+      * injection H as <-. apply plain_id; [exact L1|reflexivity|exact P1].
+    + injection H as <-. apply plain_id; reflexivity.
+  - left. injection H as <-. apply plain_id; reflexivity.
+  - left. destruct (find_use (pending p) u) as [r|]; [|discriminate].
+    destruct (mem c (cov r)); [|discriminate]. destruct (stat r c); try discriminate.
+    destruct (alive p c); injection H as <-.
+    + split; [reflexivity|]. split; [reflexivity|].
+      exists (fun r0 => if Nat.eqb (uid r0) u then set_stat r0 c Sent else r0). split; [|reflexivity].
+      intros r0. destruct (Nat.eqb (uid r0) u); [apply same_shape_set_stat|apply same_shape_refl].
+    + split; [reflexivity|]. split; [reflexivity|].
+      exists (fun r0 => if Nat.eqb (uid r0) u then set_stat r0 c (Done (CBroken 0)) else r0). split; [|reflexivity].
+      intros r0. destruct (Nat.eqb (uid r0) u); [apply same_shape_set_stat|apply same_shape_refl].
+  - left. destruct (alive p c); [|discriminate]. destruct (wire p c) as [|[u k] rest]; [discriminate|].
+    injection H as <-.
+    set (s1 := match r with RSetKeyspace n => set_acked p (upd (acked p) c (Some n)) | _ => p end) in *.
+    assert (P1 : pending s1 = pending p) by (subst s1; destruct r; reflexivity).
+    assert (L1 : log s1 = log p) by (subst s1; destruct r; reflexivity).
+    split; [exact L1|]. split; [reflexivity|].
+    eexists. split; [|cbn [pending set_pending set_wire]; rewrite P1; reflexivity].
+    intros r0. cbn beta. destruct (Nat.eqb (uid r0) u); [|apply same_shape_refl].
+    destruct (stat r0 c); try apply same_shape_refl. apply same_shape_set_stat.
+  - left. destruct (alive p c && (c <? next p)); [|discriminate]. injection H as <-.
+    split; [reflexivity|]. split; [reflexivity|]. eexists. split; [|reflexivity].
+    intros r0. cbn beta. destruct (stat r0 c); try apply same_shape_refl. apply same_shape_set_stat.
+  - left. destruct (alive p c); [discriminate|]. destruct (ph p c); try discriminate; injection H as <-; apply plain_id; reflexivity.
+  - right. destruct (find_use (pending p) u) as [r|] eqn:F; [|discriminate].
+    destruct (forallb (fun c => is_done (stat r c)) (cov r) && panswer_eqb a (answer_of r)); [|discriminate].
+    injection H as <-. exists u, a, r. repeat split; try reflexivity. exact F.
+  - right. destruct (find_use (pending p) u) as [r|] eqn:F; [|discriminate].
+    destruct (cov r); [discriminate|]. injection H as <-. exists u, PAErr, r. repeat split; try reflexivity. exact F.
+  - left. destruct (ph p c); try discriminate. injection H as <-. apply plain_id; reflexivity.
+Qed.
+
+Lemma nil_step p l p' :
+  pending p = [] -> is_use l = false -> step p l = Some p' -> pending p' = [] /\ log p' = log p.
+Proof.
+  intros Hp Hu H. destruct (step_pending_log p l p' H Hu) as [[Hl [_ [g [_ Hg]]]]|[u [a [r [_ [_ [_ F]]]]]]].
+  - rewrite Hg, Hp. split; [reflexivity|exact Hl].
+  - rewrite Hp in F. discriminate.
+Qed.
+
+Lemma log_mono p l p' x : is_use l = false -> step p l = Some p' -> In x (log p) -> In x (log p').
+Proof.
+  intros Hu H Hx. destruct (step_pending_log p l p' H Hu) as [[Hl _]|[u [a [r [_ [_ [Hl _]]]]]]]; rewrite Hl.
+  - exact Hx.
+  - apply in_app_iff. left. exact Hx.
+Qed.
+
+Lemma answered_log p l p' u a :
+  is_use l = false -> step p l = Some p' -> answered_by l = Some (u, a) ->
+  In (u, a) (log p') /\ (exists r, In r (pending p) /\ uid r = u) /\ forall r', In r' (pending p') -> uid r' <> u.
+Proof.
+  intros Hu H Ha. destruct (step_pending_log p l p' H Hu) as [[_ [Hn _]]|[u' [a' [r [Ha' [Hp [Hl F]]]]]]]; [congruence|].
+  rewrite Ha in Ha'. injection Ha' as <- <-. split; [|split].
+  - rewrite Hl. apply in_app_iff. right. left. reflexivity.
+  - apply find_use_some in F. exists r. exact F.
+  - intros r' Hr'. rewrite Hp in Hr'. apply in_drop_use in Hr'. apply Hr'.
+Qed.
+
+Lemma pending_shape p l p' r' :
+  is_use l = false -> step p l = Some p' -> In r' (pending p') -> exists r, In r (pending p) /\ uid r = uid r'.
+Proof.
+  intros Hu H Hr. destruct (step_pending_log p l p' H Hu) as [[_ [_ [g [Hg Hp]]]]|[u [a [r [_ [Hp _]]]]]].
+  - rewrite Hp in Hr. apply in_map_iff in Hr. destruct Hr as [r0 [<- Hr0]]. exists r0. split; [exact Hr0|].
+    destruct (Hg r0) as [E _]. symmetry. exact E.
+  - rewrite Hp in Hr. apply in_drop_use in Hr. exists r'. split; [apply Hr|reflexivity].
+Qed.
+
+
+Definition QF (k : ks) (u : nat) (p : pool) : Prop := QInv k u p \/ failed u p.
+Definition DoneP (k : ks) (p : pool) : Prop := exists u a, QF k u p /\ In (u, a) (log p) /\ a <> PAErr.
+Definition FreshP (k : ks) (p : pool) : Prop := QF k 0 p /\ pending p = [] /\ log p = [].
+
+Lemma QF_step k u p l p' : GInv p -> QF k u p -> is_use l = false -> step p l = Some p' -> QF k u p'.
+Proof.
+  intros G [Q|F] Hu H; [eapply QInv_step; eassumption|right; eapply failed_step; eassumption].
+Qed.
+
+Lemma DoneP_step k p l p' : GInv p -> DoneP k p -> is_use l = false -> step p l = Some p' -> DoneP k p'.
+Proof.
+  intros G [u [a [Q [Hl Ha]]]] Hu H. exists u, a. split; [eapply QF_step; eassumption|].
+  split; [eapply log_mono; eassumption|exact Ha].
+Qed.
+
+Lemma FreshP_step k p l p' : GInv p -> FreshP k p -> is_use l = false -> step p l = Some p' -> FreshP k p'.
+Proof.
+  intros G [Q [Hp Hl]] Hu H. destruct (nil_step p l p' Hp Hu H) as [Hp' Hl'].
+  split; [eapply QF_step; eassumption|]. split; [exact Hp'|congruence].
+Qed.
+
+Lemma FreshP_init k : FreshP k (init (Some k)).
+Proof.
+  split; [|split; reflexivity]. left. constructor; cbn; [reflexivity|left; reflexivity|intros; discriminate].
+Qed.
+
+Lemma DoneP_good k p c :
+  DoneP k p -> ph p c = InPool -> alive p c = true -> wire p c = [] /\ matchesb p c k = true.
+Proof.
+  intros [u [a [[Q|F] [Hl Ha]]]] Hc Hal.
+  - destruct (q_pend _ _ _ Q) as [Hp|[r [_ [_ [_ [_ Hn]]]]]]; [|exfalso; exact (Hn a Hl)].
+    pose proof (q_conn _ _ _ Q c Hc Hal) as Hg. unfold conn_good in Hg. rewrite Hp in Hg. exact Hg.
+  - destruct F as [_ [_ F]]. exfalso. apply Ha, F, Hl.
+Qed.
+
+Lemma FreshP_good k p c :
+  FreshP k p -> ph p c = InPool -> alive p c = true -> wire p c = [] /\ matchesb p c k = true.
+Proof.
+  intros [[Q|F] [Hp Hl]] Hc Hal.
+  - pose proof (q_conn _ _ _ Q c Hc Hal) as Hg. unfold conn_good in Hg. rewrite Hp in Hg. exact Hg.
+  - destruct F as [_ [F _]]. rewrite Hl in F. contradiction.
+Qed.
+
+Lemma use_step_shape p raw cs k p' :
+  make_verified raw cs = Ok k -> step p (UseKeyspace raw cs) = Some p' ->
+  pending p' = pending p ++ [mkUse (unext p) k (pool_conns p) (fun _ => NotSent)].
+Proof. intros M H. cbn [step] in H. rewrite M in H. injection H as <-. reflexivity. Qed.
+
+(* ---- phase 1: any history ---------------------------------------------------------------- *)
+
+Record AInv (s : sys) : Prop := mkA {
+  a_g : forall n, GInv (spool s n);
+  a_pend : forall n r, In r (pending (spool s n)) ->
+           exists g, In g (sfans s) /\ In n (ftargets g) /\ fstat g n = FSent (uid r);
+  a_nodes : forall n, In n (snodes s) -> n < snnext s;
+  a_targets : forall g, In g (sfans s) -> forall n, In n (ftargets g) -> n < snnext s;
+  a_fid : forall g, In g (sfans s) -> fid g < sfnext s;
+  a_log : forall f b, In (f, b) (slog s) -> f < sfnext s
+}.
+
+Lemma AInv_init n0 : AInv (yinit n0).
+Proof.
+  constructor; cbn; intros; try contradiction.
+  - apply GInv_init.
+  - apply in_seq in H. lia.
+Qed.
+
+Lemma fresh_not_old s n nnew : n < snnext s -> mem n (seq (snnext s) nnew) = false.
+Proof. intros H. apply mem_false. intros Hin. apply in_seq in Hin. lia. Qed.
+
+Lemma not_answered_sent g n u : In n (ftargets g) -> fstat g n = FSent u -> all_answered g = false.
+Proof.
+  intros Hn Hs. unfold all_answered. destruct (forallb _ _) eqn:E; [|reflexivity].
+  rewrite forallb_forall in E. specialize (E n Hn). rewrite Hs in E. discriminate.
+Qed.
+
+Lemma AInv_step s l s' : AInv s -> ystep s l = Some s' -> AInv s'.
+Proof.
+  intros A H. destruct l as [raw cs|f n|n l|keep nnew|f ok|n c]; cbn [ystep] in H.
+  - (* YUse *)
+    destruct (make_verified raw cs) as [k|e]; [|injection H as <-; exact A].
+    injection H as <-. constructor; cbn [sused snodes snnext spool sfans sfnext slog].
+    + apply (a_g s A).
+    + intros n r Hr. destruct (a_pend s A n r Hr) as [g [Hg Hx]]. exists g. split; [apply in_app_iff; left; exact Hg|exact Hx].
+    + apply (a_nodes s A).
+    + intros g Hg n Hn. apply in_app_iff in Hg. destruct Hg as [Hg|[<-|[]]]; [eapply (a_targets s A); eassumption|].
+      apply (a_nodes s A), Hn.
+    + intros g Hg. apply in_app_iff in Hg. destruct Hg as [Hg|[<-|[]]]; [pose proof (a_fid s A g Hg); lia|cbn; lia].
+    + intros f b Hf. pose proof (a_log s A f b Hf). lia.
+  - (* YDeliver *)
+    destruct (find (deliverable f n) (sfans s)) as [g0|] eqn:F; [|discriminate].
+    apply find_some in F. destruct F as [Hg0 Hd0].
+    destruct (make_verified (fst (fks g0)) (snd (fks g0))) as [k|e] eqn:M; [|discriminate].
+    destruct (step (spool s n) (UseKeyspace (fst (fks g0)) (snd (fks g0)))) as [p'|] eqn:S; [|discriminate].
+    injection H as <-.
+    pose proof (use_step_shape _ _ _ _ _ M S) as Hp'.
+    set (u := unext (spool s n)) in *.
+    set (fm := fun h => if deliverable f n h then set_fstat h n (FSent u) else h).
+    assert (Htar : forall h, ftargets (fm h) = ftargets h) by (intros h; unfold fm; destruct (deliverable f n h); reflexivity).
+    assert (Hfid : forall h, fid (fm h) = fid h) by (intros h; unfold fm; destruct (deliverable f n h); reflexivity).
+    constructor; cbn [sused snodes snnext spool sfans sfnext slog].
+    + intros m. destruct (Nat.eq_dec m n) as [->|Hne]; [rewrite upd_same; eapply GInv_step; [apply (a_g s A)|exact S]|].
+      rewrite upd_other by exact Hne. apply (a_g s A).
+    + intros m r Hr. destruct (Nat.eq_dec m n) as [->|Hne].
+      * rewrite upd_same in Hr. rewrite Hp' in Hr. apply in_app_iff in Hr. destruct Hr as [Hr|[<-|[]]].
+        -- destruct (a_pend s A n r Hr) as [g [Hg [Hn Hs]]]. exists (fm g). split; [apply in_map, Hg|].
+           rewrite Htar. split; [exact Hn|]. unfold fm, deliverable. rewrite Hs. cbn [is_wait]. rewrite andb_false_r. exact Hs.
+        -- exists (fm g0). split; [apply in_map, Hg0|]. rewrite Htar.
+           pose proof Hd0 as Hd. unfold deliverable in Hd. apply andb_true_iff in Hd. destruct Hd as [Hd1 _].
+           apply andb_true_iff in Hd1. destruct Hd1 as [_ Hd1]. apply mem_In in Hd1.
+           split; [exact Hd1|]. unfold fm. rewrite Hd0. cbn [fstat set_fstat]. rewrite upd_same. reflexivity.
+      * rewrite upd_other in Hr by exact Hne. destruct (a_pend s A m r Hr) as [g [Hg [Hn Hs]]].
+        exists (fm g). split; [apply in_map, Hg|]. rewrite Htar. split; [exact Hn|].
+        unfold fm. destruct (deliverable f n g); [|exact Hs]. cbn [fstat set_fstat]. rewrite upd_other by exact Hne. exact Hs.
+    + apply (a_nodes s A).
+    + intros g Hg m Hm. apply in_map_iff in Hg. destruct Hg as [h [<- Hh]]. rewrite Htar in Hm. eapply (a_targets s A); eassumption.
+    + intros g Hg. apply in_map_iff in Hg. destruct Hg as [h [<- Hh]]. rewrite Hfid. apply (a_fid s A), Hh.
+    + apply (a_log s A).
+  - (* YPool *)
+    destruct (is_use l) eqn:Hu; [discriminate|].
+    destruct (step (spool s n) l) as [p'|] eqn:S; [|discriminate]. injection H as <-.
+    set (fans' := match answered_by l with
+                  | Some (u, a) => map (fun h => if fsent_is u (fstat h n) then set_fstat h n (FAns a) else h) (sfans s)
+                  | None => sfans s end).
+    (* every fan has an image with the same targets / id, and the same status except possibly at n *)
+    assert (Himg : forall g, In g (sfans s) -> exists g', In g' fans' /\ ftargets g' = ftargets g /\ fid g' = fid g /\
+                   (forall m, m <> n -> fstat g' m = fstat g m) /\
+                   (forall u, fstat g n = FSent u -> (forall u' a, answered_by l = Some (u', a) -> u' <> u) -> fstat g' n = FSent u)).
+    { intros g Hg. subst fans'. destruct (answered_by l) as [[u a]|] eqn:Ea.
+      - eexists. split; [apply in_map, Hg|]. cbn beta. destruct (fsent_is u (fstat g n)) eqn:Ef.
+        + cbn [ftargets fid fstat set_fstat]. repeat split; try reflexivity.
+          * intros m Hm. apply upd_other, Hm.
+          * intros u0 Hs Hno. exfalso. rewrite Hs in Ef. cbn [fsent_is] in Ef. apply Nat.eqb_eq in Ef.
+            apply (Hno u a eq_refl). exact Ef.
+        + repeat split; try reflexivity. intros u0 Hs _. exact Hs.
+      - exists g. split; [exact Hg|]. repeat split; try reflexivity. intros u0 Hs _. exact Hs. }
+    assert (Hpre : forall g', In g' fans' -> exists g, In g (sfans s) /\ ftargets g' = ftargets g /\ fid g' = fid g).
+    { intros g' Hg'. subst fans'. destruct (answered_by l) as [[u a]|].
+      - apply in_map_iff in Hg'. destruct Hg' as [g [<- Hg]]. exists g. split; [exact Hg|].
+        destruct (fsent_is u (fstat g n)); split; reflexivity.
+      - exists g'. split; [exact Hg'|split; reflexivity]. }
+    constructor; cbn [sused snodes snnext spool sfans sfnext slog].
+    + intros m. destruct (Nat.eq_dec m n) as [->|Hne]; [rewrite upd_same; eapply GInv_step; [apply (a_g s A)|exact S]|].
+      rewrite upd_other by exact Hne. apply (a_g s A).
+    + intros m r Hr. destruct (Nat.eq_dec m n) as [->|Hne].
+      * rewrite upd_same in Hr. destruct (pending_shape _ _ _ _ Hu S Hr) as [r0 [Hr0 Hur]].
+        destruct (a_pend s A n r0 Hr0) as [g [Hg [Hn Hs]]].
+        destruct (Himg g Hg) as [g' [Hg' [Ht [_ [_ Hk]]]]]. exists g'. split; [exact Hg'|]. rewrite Ht. split; [exact Hn|].
+        rewrite <- Hur. apply Hk; [exact Hs|]. intros u' a Ha.
+        destruct (answered_log _ _ _ _ _ Hu S Ha) as [_ [_ Hno]]. specialize (Hno r Hr). congruence.
+      * rewrite upd_other in Hr by exact Hne. destruct (a_pend s A m r Hr) as [g [Hg [Hn Hs]]].
+        destruct (Himg g Hg) as [g' [Hg' [Ht [_ [Hm _]]]]]. exists g'. split; [exact Hg'|]. rewrite Ht. split; [exact Hn|].
+        rewrite Hm by exact Hne. exact Hs.
+    + apply (a_nodes s A).
+    + intros g' Hg' m Hm. destruct (Hpre g' Hg') as [g [Hg [Ht _]]]. rewrite Ht in Hm. eapply (a_targets s A); eassumption.
+    + intros g' Hg'. destruct (Hpre g' Hg') as [g [Hg [_ Hf]]]. rewrite Hf. apply (a_fid s A), Hg.
+    + apply (a_log s A).
+  - (* YApply *)
+    injection H as <-. constructor; cbn [sused snodes snnext spool sfans sfnext slog].
+    + intros m. destruct (mem m (seq (snnext s) nnew)); [apply GInv_init|apply (a_g s A)].
+    + intros m r Hr. destruct (mem m (seq (snnext s) nnew)); [cbn in Hr; contradiction|]. apply (a_pend s A m r Hr).
+    + intros m Hn. apply in_app_iff in Hn. destruct Hn as [Hn|Hn].
+      * apply filter_In in Hn. destruct Hn as [Hn _]. pose proof (a_nodes s A m Hn). lia.
+      * apply in_seq in Hn. lia.
+    + intros g Hg m Hn. pose proof (a_targets s A g Hg m Hn). lia.
+    + apply (a_fid s A).
+    + apply (a_log s A).
+  - (* YReturn *)
+    destruct (find (fun g => Nat.eqb (fid g) f && all_answered g) (sfans s)) as [g0|] eqn:F; [|discriminate].
+    apply find_some in F. destruct F as [Hg0 Hd0]. apply andb_true_iff in Hd0. destruct Hd0 as [Hf0 _]. apply Nat.eqb_eq in Hf0.
+    destruct (ftargets g0); [discriminate|]. destruct (Bool.eqb ok (fan_ok g0)); [|discriminate]. injection H as <-.
+    constructor; cbn [sused snodes snnext spool sfans sfnext slog].
+    + apply (a_g s A).
+    + intros m r Hr. destruct (a_pend s A m r Hr) as [g [Hg [Hn Hs]]]. exists g. split; [|split; assumption].
+      apply filter_In. split; [exact Hg|]. rewrite (not_answered_sent g m _ Hn Hs). rewrite andb_false_r. reflexivity.
+    + apply (a_nodes s A).
+    + intros g Hg. apply filter_In in Hg. apply (a_targets s A), Hg.
+    + intros g Hg. apply filter_In in Hg. apply (a_fid s A), Hg.
+    + intros f0 b Hf. apply in_app_iff in Hf. destruct Hf as [Hf|[Heq|[]]]; [apply (a_log s A f0 b Hf)|].
+      injection Heq as <- _. rewrite <- Hf0. apply (a_fid s A), Hg0.
+  - (* YPick *)
+    destruct (mem n (snodes s)); [|discriminate]. destruct (ph (spool s n) c); try discriminate. injection H as <-. exact A.
+Qed.
+
+
+Definition node_ok (k : ks) (s : sys) (g : fan) (n : nat) : Prop :=
+  match fstat g n with
+  | FWait => pending (spool s n) = []
+  | FSent u => QF k u (spool s n)
+  | FAns a => exists u, QF k u (spool s n) /\ In (u, a) (log (spool s n))
+  end.
+
+Record BInv (k : ks) (F : nat) (s : sys) : Prop := mkB {
+  b_a : AInv s;
+  b_used : sused s = Some k;
+  b_fans : sfans s = [] \/
+           exists g, sfans s = [g] /\ fid g = F /\ fks g = k /\ (forall b, ~ In (F, b) (slog s)) /\
+                     (forall n, In n (ftargets g) -> node_ok k s g n) /\
+                     (forall n, In n (snodes s) -> In n (ftargets g) \/ FreshP k (spool s n));
+  b_done : sfans s = [] -> In (F, true) (slog s) ->
+           forall n, In n (snodes s) -> DoneP k (spool s n) \/ FreshP k (spool s n)
+}.
+
+Lemma BInv_after_use s raw cs s' :
+  AInv s -> sfans s = [] -> valid_name raw -> ystep s (YUse raw cs) = Some s' -> BInv (raw, cs) (sfnext s) s'.
+Proof.
+  intros A Hf Hv H. pose proof (AInv_step _ _ _ A H) as A'. cbn [ystep] in H.
+  assert (M : make_verified raw cs = Ok (raw, cs)) by (apply make_verified_ok; split; [reflexivity|exact Hv]).
+  rewrite M in H. injection H as <-. constructor; [exact A'|reflexivity| |].
+  - right. cbn [sfans slog snodes spool]. rewrite Hf. cbn [app]. eexists. split; [reflexivity|].
+    cbn [fid fks ftargets fstat]. repeat split.
+    + intros b Hb. pose proof (a_log s A _ _ Hb). lia.
+    + intros n _. unfold node_ok. cbn [fstat spool].
+      destruct (pending (spool s n)) as [|r l] eqn:E; [reflexivity|].
+      destruct (a_pend s A n r) as [g [Hg _]]; [rewrite E; left; reflexivity|]. rewrite Hf in Hg. contradiction.
+    + intros n Hn. left. exact Hn.
+  - cbn [sfans]. rewrite Hf. cbn [app]. discriminate.
+Qed.
+
+Lemma QF_answered_uid k u p l p' u' a :
+  QF k u p -> is_use l = false -> step p l = Some p' -> answered_by l = Some (u', a) -> u' = u.
+Proof.
+  intros Q Hu H Ha. destruct (answered_log _ _ _ _ _ Hu H Ha) as [_ [[r [Hr Hur]] _]].
+  destruct Q as [Q|[Hp _]]; [|rewrite Hp in Hr; contradiction].
+  destruct (q_pend _ _ _ Q) as [Hp|[r0 [Hp [Hu0 _]]]]; rewrite Hp in Hr; [contradiction|].
+  destruct Hr as [<-|[]]. congruence.
+Qed.
+
+Lemma fan_ok_each g n :
+  fan_ok g = true -> In n (ftargets g) -> exists a, fstat g n = FAns a /\ a <> PAErr.
+Proof.
+  unfold fan_ok. intros H Hn.
+  destruct (use_keyspace_result (map (fun n => node_outcome (fstat g n)) (ftargets g))) eqn:E; try discriminate.
+  pose proof (aggregate_ok_each _ E (node_outcome (fstat g n))) as Hx.
+  destruct Hx as [Hx|[t Hx]]; [apply in_map_iff; exists n; split; [reflexivity|exact Hn]| |];
+    destruct (fstat g n) as [|u|[| |]]; try discriminate; eexists; (split; [reflexivity|discriminate]).
+Qed.
+
+Lemma BInv_step k F s l s' :
+  BInv k F s -> is_yuse l = false -> ystep s l = Some s' -> BInv k F s'.
+Proof.
+  intros B Hy H. pose proof (AInv_step _ _ _ (b_a _ _ _ B) H) as A'. pose proof (b_a _ _ _ B) as A.
+  destruct l as [raw cs|f n|n l|keep nnew|f ok|n c]; cbn [ystep is_yuse] in H, Hy; try discriminate.
+  - (* YDeliver *)
+    destruct (find (deliverable f n) (sfans s)) as [g0|] eqn:Fd; [|discriminate].
+    destruct (make_verified (fst (fks g0)) (snd (fks g0))) as [k0|e] eqn:M; [|discriminate].
+    destruct (step (spool s n) (UseKeyspace (fst (fks g0)) (snd (fks g0)))) as [p'|] eqn:S; [|discriminate].
+    injection H as <-.
+    destruct (b_fans _ _ _ B) as [Hf|[g [Hf [Hid [Hk [Hlog [Hnode Hsn]]]]]]]; [rewrite Hf in Fd; discriminate|].
+    rewrite Hf in Fd. cbn [find] in Fd. destruct (deliverable f n g) eqn:Hd; [|discriminate]. injection Fd as <-.
+    pose proof Hd as Hd'. unfold deliverable in Hd'. apply andb_true_iff in Hd'. destruct Hd' as [Hd1 Hw].
+    apply andb_true_iff in Hd1. destruct Hd1 as [_ Hm]. apply mem_In in Hm.
+    apply make_verified_ok in M. destruct M as [_ Hv].
+    assert (Hkk : (fst (fks g), snd (fks g)) = k) by (rewrite Hk; destruct k; reflexivity).
+    constructor; [exact A'|exact (b_used _ _ _ B)| |].
+    + right. cbn [sfans slog snodes spool]. rewrite Hf. cbn [map]. rewrite Hd. eexists. split; [reflexivity|].
+      cbn [fid fks ftargets]. repeat split; try assumption.
+      * intros m Hmt. unfold node_ok. cbn [fstat set_fstat spool]. destruct (Nat.eq_dec m n) as [->|Hne].
+        -- repeat rewrite upd_same. left. rewrite <- Hkk.
+           apply QInv_after_use; [apply (a_g s A)| |exact Hv|exact S].
+           pose proof (Hnode n Hm) as Hno. unfold node_ok in Hno. destruct (fstat g n); try discriminate. exact Hno.
+        -- repeat rewrite upd_other by exact Hne. apply (Hnode m Hmt).
+      * intros m Hms. destruct (Hsn m Hms) as [Ht|Hfr]; [left; exact Ht|].
+        destruct (Nat.eq_dec m n) as [->|Hne]; [left; exact Hm|right; rewrite upd_other by exact Hne; exact Hfr].
+    + cbn [sfans]. rewrite Hf. cbn [map]. discriminate.
+  - (* YPool *)
+    destruct (is_use l) eqn:Hu; [discriminate|].
+    destruct (step (spool s n) l) as [p'|] eqn:S; [|discriminate]. injection H as <-.
+    pose proof (a_g s A n) as Gn.
+    constructor; [exact A'|exact (b_used _ _ _ B)| |].
+    + destruct (b_fans _ _ _ B) as [Hf|[g [Hf [Hid [Hk [Hlog [Hnode Hsn]]]]]]].
+      * left. cbn [sfans]. rewrite Hf. destruct (answered_by l) as [[u a]|]; reflexivity.
+      * right. cbn [sfans slog snodes spool]. rewrite Hf.
+        set (g' := match answered_by l with
+                   | Some (u, a) => if fsent_is u (fstat g n) then set_fstat g n (FAns a) else g
+                   | None => g end).
+        exists g'. split; [subst g'; destruct (answered_by l) as [[u a]|]; reflexivity|].
+        assert (Ht : ftargets g' = ftargets g) by (subst g'; destruct (answered_by l) as [[u a]|]; [destruct (fsent_is u (fstat g n))|]; reflexivity).
+        assert (Hi : fid g' = fid g) by (subst g'; destruct (answered_by l) as [[u a]|]; [destruct (fsent_is u (fstat g n))|]; reflexivity).
+        assert (Hkk : fks g' = fks g) by (subst g'; destruct (answered_by l) as [[u a]|]; [destruct (fsent_is u (fstat g n))|]; reflexivity).
+        assert (Hother : forall m, m <> n -> fstat g' m = fstat g m).
+        { intros m Hne. subst g'. destruct (answered_by l) as [[u a]|]; [destruct (fsent_is u (fstat g n))|]; try reflexivity.
+          cbn [fstat set_fstat]. apply upd_other, Hne. }
+        rewrite Ht, Hi, Hkk. repeat split; try assumption.
+        -- intros m Hmt. unfold node_ok. cbn [spool]. destruct (Nat.eq_dec m n) as [->|Hne].
+           ++ rewrite upd_same. pose proof (Hnode n Hmt) as Hno. unfold node_ok in Hno.
+              destruct (fstat g n) as [|u|a] eqn:Es.
+              ** assert (Hg' : fstat g' n = FWait).
+                 { subst g'. destruct (answered_by l) as [[u a]|]; [try rewrite Es; cbn [fsent_is]|]; try exact Es; reflexivity. }
+                 rewrite Hg'. apply (nil_step _ _ _ Hno Hu S).
+              ** pose proof (QF_step _ _ _ _ _ Gn Hno Hu S) as Q'.
+                 destruct (answered_by l) as [[u' a]|] eqn:Ea.
+                 --- assert (u' = u) by (exact (QF_answered_uid k u (spool s n) l p' u' a Hno Hu S Ea)). subst u'.
+                     subst g'. try rewrite Es. cbn [fsent_is]. rewrite Nat.eqb_refl. cbn [fstat set_fstat]. rewrite upd_same.
+                     exists u. split; [exact Q'|]. apply (answered_log _ _ _ _ _ Hu S Ea).
+                 --- subst g'. try rewrite Es. exact Q'.
+              ** assert (Hg' : fstat g' n = FAns a).
+                 { subst g'. destruct (answered_by l) as [[u a0]|]; [try rewrite Es; cbn [fsent_is]|]; try exact Es; reflexivity. }
+                 rewrite Hg'. destruct Hno as [u [Q Hl]]. exists u. split; [eapply QF_step; eassumption|eapply log_mono; eassumption].
+           ++ rewrite upd_other by exact Hne. rewrite Hother by exact Hne. apply (Hnode m Hmt).
+        -- intros m Hms. destruct (Hsn m Hms) as [Htm|Hfr]; [left; exact Htm|right].
+           destruct (Nat.eq_dec m n) as [->|Hne]; [rewrite upd_same; eapply FreshP_step; eassumption|].
+           rewrite upd_other by exact Hne. exact Hfr.
+    + cbn [sfans slog snodes spool]. intros Hf' Hl m Hms.
+      assert (Hf : sfans s = []).
+      { destruct (answered_by l) as [[u a]|]; [|exact Hf']. destruct (sfans s); [reflexivity|discriminate]. }
+      destruct (b_done _ _ _ B Hf Hl m Hms) as [D|Fr]; (destruct (Nat.eq_dec m n) as [->|Hne];
+        [rewrite upd_same|rewrite upd_other by exact Hne]).
+      * left. eapply DoneP_step; eassumption.
+      * left. exact D.
+      * right. eapply FreshP_step; eassumption.
+      * right. exact Fr.
+  - (* YApply *)
+    injection H as <-.
+    assert (Hold : forall m, m < snnext s -> (if mem m (seq (snnext s) nnew) then init (sused s) else spool s m) = spool s m).
+    { intros m Hm. rewrite fresh_not_old by exact Hm. reflexivity. }
+    assert (Hnew : forall m, In m (filter (fun n => mem n keep) (snodes s) ++ seq (snnext s) nnew) ->
+                   (In m (snodes s) /\ m < snnext s) \/ In m (seq (snnext s) nnew)).
+    { intros m Hm. apply in_app_iff in Hm. destruct Hm as [Hm|Hm]; [left|right; exact Hm].
+      apply filter_In in Hm. destruct Hm as [Hm _]. split; [exact Hm|apply (a_nodes s A), Hm]. }
+    constructor; [exact A'|exact (b_used _ _ _ B)| |].
+    + destruct (b_fans _ _ _ B) as [Hf|[g [Hf [Hid [Hk [Hlog [Hnode Hsn]]]]]]]; [left; exact Hf|right].
+      exists g. cbn [sfans slog snodes spool]. repeat split; try assumption.
+      * intros m Hmt. unfold node_ok. cbn [spool]. rewrite Hold; [apply (Hnode m Hmt)|].
+        apply (a_targets s A g); [rewrite Hf; left; reflexivity|exact Hmt].
+      * intros m Hm. destruct (Hnew m Hm) as [[Hms Hlt]|Hfr].
+        -- rewrite Hold by exact Hlt. apply Hsn, Hms.
+        -- right. apply mem_In in Hfr. rewrite Hfr. rewrite (b_used _ _ _ B). apply FreshP_init.
+    + cbn [sfans slog snodes spool]. intros Hf Hl m Hm. destruct (Hnew m Hm) as [[Hms Hlt]|Hfr].
+      * rewrite Hold by exact Hlt. apply (b_done _ _ _ B Hf Hl m Hms).
+      * right. apply mem_In in Hfr. rewrite Hfr. rewrite (b_used _ _ _ B). apply FreshP_init.
+  - (* YReturn *)
+    destruct (find (fun g => Nat.eqb (fid g) f && all_answered g) (sfans s)) as [g0|] eqn:Fd; [|discriminate].
+    destruct (b_fans _ _ _ B) as [Hf|[g [Hf [Hid [Hk [Hlog [Hnode Hsn]]]]]]]; [rewrite Hf in Fd; discriminate|].
+    rewrite Hf in Fd. cbn [find] in Fd. destruct (Nat.eqb (fid g) f && all_answered g) eqn:Hd; [|discriminate].
+    injection Fd as <-. apply andb_true_iff in Hd. destruct Hd as [Hff Hall]. apply Nat.eqb_eq in Hff.
+    destruct (ftargets g) eqn:Et; [discriminate|]. rewrite <- Et in *.
+    destruct (Bool.eqb ok (fan_ok g)) eqn:Eo; [|discriminate]. apply Bool.eqb_prop in Eo. injection H as <-.
+    assert (Hnil : filter (fun h => negb (Nat.eqb (fid h) f && all_answered h)) (sfans s) = []).
+    { rewrite Hf. cbn [filter]. rewrite Hff, Nat.eqb_refl, Hall. reflexivity. }
+    constructor; [exact A'|exact (b_used _ _ _ B)|left; exact Hnil|].
+    cbn [sfans slog snodes spool]. intros _ Hl m Hms.
+    apply in_app_iff in Hl. destruct Hl as [Hl|[Heq|[]]]; [exfalso; exact (Hlog _ Hl)|].
+    injection Heq as _ Hok0. assert (Hok : fan_ok g = true) by congruence.
+    destruct (Hsn m Hms) as [Hmt|Hfr]; [left|right; exact Hfr].
+    destruct (fan_ok_each g m Hok Hmt) as [a [Hs Ha]]. pose proof (Hnode m Hmt) as Hno. unfold node_ok in Hno. rewrite Hs in Hno.
+    destruct Hno as [u [Q Hlg]]. exists u, a. repeat split; assumption.
+  - (* YPick *)
+    destruct (mem n (snodes s)); [|discriminate]. destruct (ph (spool s n) c); try discriminate. injection H as <-. exact B.
+Qed.
+
+Lemma yrun_inv (P : sys -> Prop) (okl : ylabel -> bool) :
+  (forall s l s', P s -> okl l = true -> ystep s l = Some s' -> P s') ->
+  forall ls s s', forallb okl ls = true -> P s -> yrun s ls = Some s' -> P s'.
+Proof.
+  intros Hstep ls. induction ls as [|l r IH]; intros s s' Hok Hp Hr; cbn [yrun] in Hr.
+  - injection Hr as <-. exact Hp.
+  - cbn [forallb] in Hok. apply andb_true_iff in Hok. destruct Hok as [Hl Hok].
+    destruct (ystep s l) as [s1|] eqn:E; [|discriminate].
+    apply (IH s1 s' Hok); [|exact Hr]. eapply Hstep; eassumption.
+Qed.
+
+(* the composed statement: session -> worker fan-out -> per-node pools -> connections *)
+Lemma session_after_success n0 ls1 s1 raw cs s2 ls2 s3 n c :
+  yrun (yinit n0) ls1 = Some s1 -> sfans s1 = [] ->
+  valid_name raw -> ystep s1 (YUse raw cs) = Some s2 ->
+  no_yuse ls2 = true -> yrun s2 ls2 = Some s3 ->
+  In (sfnext s1, true) (slog s3) ->
+  In n (snodes s3) -> ph (spool s3 n) c = InPool -> alive (spool s3 n) c = true ->
+  wire (spool s3 n) c = [] /\ matchesb (spool s3 n) c (raw, cs) = true.
+Proof.
+  intros R1 Hf Hv S Hn R2 Hl Hin Hc Hal.
+  assert (A1 : AInv s1).
+  { apply (yrun_inv AInv (fun _ => true)) with (ls := ls1) (s := yinit n0); [|apply forallb_forall; reflexivity|apply AInv_init|exact R1].
+    intros s l s' A _ H. eapply AInv_step; eassumption. }
+  pose proof (BInv_after_use s1 raw cs s2 A1 Hf Hv S) as B2.
+  assert (B3 : BInv (raw, cs) (sfnext s1) s3).
+  { apply (yrun_inv (BInv (raw, cs) (sfnext s1)) (fun l => negb (is_yuse l))) with (ls := ls2) (s := s2); [|exact Hn|exact B2|exact R2].
+    intros s l s' B Hl' H. apply negb_true_iff in Hl'. eapply BInv_step; eassumption. }
+  assert (Hnil : sfans s3 = []).
+  { destruct (b_fans _ _ _ B3) as [H|[g [_ [_ [_ [Hno _]]]]]]; [exact H|exfalso; exact (Hno _ Hl)]. }
+  destruct (b_done _ _ _ B3 Hnil Hl n Hin) as [D|Fr]; [eapply DoneP_good|eapply FreshP_good]; eassumption.
+Qed.
+
+(* ---- overlapping calls: what is guaranteed with an honest server ---------------------------- *)
+
+
+Record HInv (s : pool) : Prop := mkH {
+  h_set : forall c k, ph s c = Setting k -> In k (told s c);
+  h_wire : forall c u k, In (u, k) (wire s c) -> In k (told s c);
+  h_ack : forall c n, acked s c = Some n -> exists k, In k (told s c) /\ n = canon k
+}.
+
+Lemma HInv_init k0 : HInv (init k0).
+Proof. constructor; cbn; intros; try discriminate; contradiction. Qed.
+
+(* phases change, nothing else *)
+Lemma HInv_phase s f :
+  HInv s -> (forall c k, f c = Setting k -> ph s c = Setting k) -> HInv (set_ph s f).
+Proof. intros H Hf. constructor; ssimpl; [intros c k Hc; apply (h_set s H), Hf, Hc|apply (h_wire s H)|apply (h_ack s H)]. Qed.
+
+Lemma HInv_accept_path s c r a s' : HInv s -> accept_path s c r a = Some s' -> HInv s'.
+Proof.
+  intros H E. unfold accept_path in E. destruct (r && negb (is_accept a)); [discriminate|]. injection E as <-.
+  apply HInv_phase; [exact H|]. intros x k Hx. destruct (Nat.eq_dec x c) as [->|Hne].
+  - rewrite upd_same in Hx. destruct a; discriminate.
+  - rewrite upd_other in Hx by exact Hne. destruct r; [|exact Hx]. unfold resharded in Hx. destruct (ph s x); try discriminate. exact Hx.
+Qed.
+
+Lemma HInv_ready_path s c e r a s' : HInv s -> ready_path s c e r a = Some s' -> HInv s'.
+Proof.
+  intros H E. unfold ready_path in E. destruct (cur s) as [k|]; [|eapply HInv_accept_path; eassumption].
+  destruct (evks_differs e k); [|eapply HInv_accept_path; eassumption]. injection E as <-.
+  assert (Hmono : forall x k0, In k0 (told s x) -> In k0 (upd (told s) c (told s c ++ [k]) x)).
+  { intros x k0 Hin. destruct (Nat.eq_dec x c) as [->|Hne]; [rewrite upd_same; apply in_app_iff; left; exact Hin|].
+    rewrite upd_other by exact Hne. exact Hin. }
+  constructor; ssimpl.
+  - intros x k0 Hx. destruct (Nat.eq_dec x c) as [->|Hne].
+    + rewrite !upd_same in *. injection Hx as <-. apply in_app_iff. right. left. reflexivity.
+    + rewrite upd_other in Hx by exact Hne. apply Hmono, (h_set s H), Hx.
+  - intros x u k0 Hx. apply Hmono, (h_wire s H x u), Hx.
+  - intros x n Hx. destruct (h_ack s H x n Hx) as [k0 [Hk Hn]]. exists k0. split; [apply Hmono, Hk|exact Hn].
+Qed.
+
+Lemma honest_reply_set k n : honest_reply k (RSetKeyspace n) = true -> n = canon k.
+Proof. cbn. apply name_eqb_eq. Qed.
+
+Lemma HInv_step s l s' : HInv s -> honest_label s l = true -> step s l = Some s' -> HInv s'.
+Proof.
+  intros H Hh E. destruct l; cbn [step honest_label] in E, Hh.
+  - injection E as <-. constructor; ssimpl; [|apply (h_wire s H)|apply (h_ack s H)].
+    intros c k Hc. destruct (Nat.eq_dec c (next s)) as [->|Hne]; [rewrite upd_same in Hc; discriminate|].
+    rewrite upd_other in Hc by exact Hne. apply (h_set s H), Hc.
+  - destruct (ph s c); try discriminate. destruct ok; [eapply HInv_ready_path; eassumption|].
+    injection E as <-. apply HInv_phase; [exact H|]. intros x k Hx. destruct (Nat.eq_dec x c) as [->|Hne]; [rewrite upd_same in Hx; discriminate|].
+    rewrite upd_other in Hx by exact Hne. exact Hx.
+  - destruct (ph s c) eqn:Ep; try discriminate. destruct r as [rep|].
+    + destruct (alive s c); [|discriminate].
+      set (s1 := match rep with RSetKeyspace n => set_acked s (upd (acked s) c (Some n)) | _ => s end) in *.
+      assert (H1 : HInv s1).
+      { subst s1. destruct rep as [n| |]; try exact H. constructor; ssimpl; [apply (h_set s H)|apply (h_wire s H)|].
+        intros x n0 Hx. destruct (Nat.eq_dec x c) as [->|Hne].
+        - rewrite upd_same in Hx. injection Hx as <-. exists k. split; [apply (h_set s H), Ep|apply honest_reply_set, Hh].
+        - rewrite upd_other in Hx by exact Hne. apply (h_ack s H x n0 Hx). }
+      destruct (verify_result k rep); [eapply HInv_ready_path; eassumption| | |];
+        (injection E as <-; apply HInv_phase; [exact H1|]; intros x k0 Hx;
+         destruct (Nat.eq_dec x c) as [->|Hne]; [rewrite upd_same in Hx; discriminate|rewrite upd_other in Hx by exact Hne; exact Hx]).
+    + injection E as <-. constructor; ssimpl; [|apply (h_wire s H)|apply (h_ack s H)].
+      intros x k0 Hx. destruct (Nat.eq_dec x c) as [->|Hne]; [rewrite upd_same in Hx; discriminate|].
+      rewrite upd_other in Hx by exact Hne. apply (h_set s H), Hx.
+  - injection E as <-. apply HInv_phase; [exact H|]. intros x k Hx. destruct (ph s x); try discriminate. exact Hx.
+  - destruct (make_verified raw cs); injection E as <-; [|exact H].
+    constructor; ssimpl; [apply (h_set s H)|apply (h_wire s H)|apply (h_ack s H)].
+  - destruct (find_use (pending s) u) as [r|]; [|discriminate]. destruct (mem c (cov r)); [|discriminate].
+    destruct (stat r c); try discriminate. destruct (alive s c); injection E as <-.
+    + assert (Hmono : forall x k0, In k0 (told s x) -> In k0 (upd (told s) c (told s c ++ [uks r]) x)).
+      { intros x k0 Hin. destruct (Nat.eq_dec x c) as [->|Hne]; [rewrite upd_same; apply in_app_iff; left; exact Hin|].
+        rewrite upd_other by exact Hne. exact Hin. }
+      constructor; ssimpl.
+      * intros x k0 Hx. apply Hmono, (h_set s H), Hx.
+      * intros x u0 k0 Hx. destruct (Nat.eq_dec x c) as [->|Hne].
+        -- rewrite !upd_same in *. apply in_app_iff in Hx. destruct Hx as [Hx|[Heq|[]]].
+           ++ apply in_app_iff. left. apply (h_wire s H c u0), Hx.
+           ++ injection Heq as _ <-. apply in_app_iff. right. left. reflexivity.
+        -- rewrite upd_other in Hx by exact Hne. apply Hmono, (h_wire s H x u0), Hx.
+      * intros x n Hx. destruct (h_ack s H x n Hx) as [k0 [Hk Hn]]. exists k0. split; [apply Hmono, Hk|exact Hn].
+    + constructor; ssimpl; [apply (h_set s H)|apply (h_wire s H)|apply (h_ack s H)].
+  - destruct (alive s c); [|discriminate]. destruct (wire s c) as [|[u k] rest] eqn:W; [discriminate|]. injection E as <-.
+    assert (Hk : In k (told s c)) by (apply (h_wire s H c u); rewrite W; left; reflexivity).
+    destruct r as [n| |]; constructor; ssimpl; try apply (h_set s H); try apply (h_ack s H);
+      try (intros x u0 k0 Hx; destruct (Nat.eq_dec x c) as [->|Hne];
+           [rewrite upd_same in Hx; apply (h_wire s H c u0); rewrite W; right; exact Hx|
+            rewrite upd_other in Hx by exact Hne; apply (h_wire s H x u0), Hx]).
+    intros x n0 Hx. destruct (Nat.eq_dec x c) as [->|Hne].
+    + rewrite upd_same in Hx. injection Hx as <-. exists k. split; [exact Hk|apply honest_reply_set, Hh].
+    + rewrite upd_other in Hx by exact Hne. apply (h_ack s H x n0 Hx).
+  - destruct (alive s c && (c <? next s)); [|discriminate]. injection E as <-.
+    constructor; ssimpl; [apply (h_set s H)| |apply (h_ack s H)].
+    intros x u0 k0 Hx. destruct (Nat.eq_dec x c) as [->|Hne]; [rewrite upd_same in Hx; contradiction|].
+    rewrite upd_other in Hx by exact Hne. apply (h_wire s H x u0), Hx.
+  - destruct (alive s c); [discriminate|]. destruct (ph s c); try discriminate; injection E as <-;
+      (apply HInv_phase; [exact H|]; intros x k Hx; destruct (Nat.eq_dec x c) as [->|Hne];
+       [rewrite upd_same in Hx; discriminate|rewrite upd_other in Hx by exact Hne; exact Hx]).
+  - destruct (find_use (pending s) u) as [r|]; [|discriminate].
+    destruct (forallb (fun c => is_done (stat r c)) (cov r) && panswer_eqb a (answer_of r)); [|discriminate].
+    injection E as <-. constructor; ssimpl; [apply (h_set s H)|apply (h_wire s H)|apply (h_ack s H)].
+  - destruct (find_use (pending s) u) as [r|]; [|discriminate]. destruct (cov r); [discriminate|].
+    injection E as <-. constructor; ssimpl; [apply (h_set s H)|apply (h_wire s H)|apply (h_ack s H)].
+  - destruct (ph s c); try discriminate. injection E as <-. exact H.
+Qed.
+
+Lemma hrun_inv ls : forall s s', HInv s -> hrun s ls = Some s' -> HInv s'.
+Proof.
+  induction ls as [|l r IH]; intros s s' H E; cbn [hrun] in E; [injection E as <-; exact H|].
+  destruct (honest_label s l) eqn:Hh; [|discriminate]. destruct (step s l) as [s1|] eqn:S; [|discriminate].
+  apply (IH s1 s'); [eapply HInv_step; eassumption|exact E].
+Qed.
+
+(* whatever the interleaving of use requests (overlapping, same or different names): with an honest
+   server a connection is only ever acknowledged in the canonical keyspace of a USE sent on it *)
+Lemma overlap_membership k0 ls s c n :
+  hrun (init k0) ls = Some s -> acked s c = Some n -> exists k, In k (told s c) /\ n = canon k.
+Proof. intros E. apply (h_ack s (hrun_inv ls _ _ (HInv_init k0) E)). Qed.
+
+(* hence overlapping calls with the SAME name can only leave a connection in that keyspace *)
+Lemma overlap_same_name k0 ls s c n k :
+  hrun (init k0) ls = Some s -> (forall k', In k' (told s c) -> k' = k) -> acked s c = Some n -> n = canon k.
+Proof.
+  intros E Hall Ha. destruct (overlap_membership k0 ls s c n E Ha) as [k' [Hk ->]]. rewrite (Hall k' Hk). reflexivity.
+Qed.
+
+Lemma hrun_run ls : forall s s', hrun s ls = Some s' -> run s ls = Some s'.
+Proof.
+  induction ls as [|l r IH]; intros s s' E; cbn [hrun run] in *; [exact E|].
+  destruct (honest_label s l); [|discriminate]. destruct (step s l) as [s1|]; [apply IH, E|discriminate].
+Qed.
+
+(* two overlapping calls with different names, both answered Ok by an honest server, can leave a live
+   pool connection in the keyspace of the FIRST call while the pool's current keyspace is the second *)
+Lemma overlap_refuted :
+  exists ls s c ka kb na,
+    hrun (init None) ls = Some s /\ ka <> kb /\ cur s = Some kb /\
+    In (0, PAOk) (log s) /\ In (1, PAOk) (log s) /\ pending s = [] /\
+    ph s c = InPool /\ alive s c = true /\ wire s c = [] /\
+    acked s c = Some na /\ na = canon ka /\ matchesb s c kb = false.
+Proof.
+  exists [OpenStart; OpenReady 0 true false Accept; UseKeyspace [97%N] false; UseKeyspace [98%N] false;
+          UseSend 1 0; UseSend 0 0; UseAck 0 (RSetKeyspace [98%N]); UseAck 0 (RSetKeyspace [97%N]);
+          UseDone 0 PAOk; UseDone 1 PAOk].
+  eexists. exists 0, ([97%N], false), ([98%N], false), [97%N].
+  split; [vm_compute; reflexivity|]. split; [discriminate|]. vm_compute. repeat split; auto.
+Qed.
